@@ -223,29 +223,33 @@ Proof. exact example_ept_map. Qed.
 
 (* ---- flows: the codecs of _rpc/_pdu.py, _request.py, _bind.py, _verification.py and _epm.py, regenerated as syntax on
    every run (gen/F_rpc.v) and run in the world Flow/World_rpc.v, ARE the model functions the theorems above are about.
-   `cls` is the class the classmethod is defined on.  pack: chk b x = if b then Ok (VB x) else Raise OverflowError, b the
-   exact field ranges of the to_bytes calls (implied by the wf_* predicates above); unpack with a counted loop: lift_fst
-   forgets the tick count and the model's fuel must suffice (`<> Raise OutOfFuel`, or `len data < fuel` in the *_total
-   variants, by the C12_total_* theorems); VerificationTrailer.unpack: fuel for fuel. ---- *)
+   `cls` is the class the classmethod is defined on.
+   pack: chk b x = if b then Ok (VB x) else Raise OverflowError with b = <X>_ranges x of Flow/World_rpc.v: every
+   z.to_bytes(w, ..) reached from X.pack, those of nested x.field.pack() included (the world gives a nested pack exactly
+   this checked meaning, i.e. the right-hand side of its own theorem below).  wf_<X> x = true implies <X>_ranges x = true
+   (theorems C12_flow_wf_X_ranges), so on the well-formed messages the round-trip theorems above quantify over the run is Ok of the model's
+   pack (theorems C12_flow_X_pack_wf).  EptMapResult.pack is tied under its ranges only.
+   unpack with a counted loop: lift_fst forgets the tick count and the model's fuel must suffice (`<> Raise OutOfFuel`, or
+   `len data < fuel` in the *_total variants, by the C12_total_* theorems); VerificationTrailer.unpack: fuel for fuel. ---- *)
 From V Require Import Prelude.PyAst Prelude.PyWorld gen.F_rpc Flow.World_rpc Proofs.Flow_rpc_lib.
 From V Require Import Proofs.Flow_rpc_pdu Proofs.Flow_rpc_request Proofs.Flow_rpc_bind Proofs.Flow_rpc_vt Proofs.Flow_rpc_epm Proofs.Flow_rpc_eptmap.
 From V Require Import Prelude.PySlice.
 Local Open Scope list_scope.
 Local Open Scope Z_scope.
 (* Flow_rpc_pdu.v *)
-Theorem C12_flow_datarep_pack : forall mf fuel d, run (W mf) fuel k_flow_datarep_pack [VO (ODataRep d)] = chk (in_range 1 (k_datarep_first_octet (dr_byte_order d) (dr_character d)) && in_range 1 (dr_floating_point d)) (data_rep_pack d).
+Theorem C12_flow_datarep_pack : forall mf fuel d, run (W mf) fuel k_flow_datarep_pack [VO (ODataRep d)] = chk (data_rep_ranges d) (data_rep_pack d).
 Proof. exact flow_datarep_pack. Qed.
 Print Assumptions C12_flow_datarep_pack.
 Theorem C12_flow_datarep_unpack : forall mf fuel data, run (W mf) fuel k_flow_datarep_unpack [VO (OCls CDataRep); VB data] = (let* d := data_rep_unpack data in Ok (VO (ODataRep d))).
 Proof. exact flow_datarep_unpack. Qed.
 Print Assumptions C12_flow_datarep_unpack.
-Theorem C12_flow_pduheader_pack : forall mf fuel h, run (W mf) fuel k_flow_pduheader_pack [VO (OHeader h)] = chk (in_range 1 (h_version h) && in_range 1 (h_version_minor h) && in_range 1 (h_packet_type h) && in_range 1 (h_packet_flags h) && in_range 2 (h_frag_len h) && in_range 2 (h_auth_len h) && in_range 4 (h_call_id h)) (pdu_header_pack h).
+Theorem C12_flow_pduheader_pack : forall mf fuel h, run (W mf) fuel k_flow_pduheader_pack [VO (OHeader h)] = chk (pdu_header_ranges h) (pdu_header_pack h).
 Proof. exact flow_pduheader_pack. Qed.
 Print Assumptions C12_flow_pduheader_pack.
 Theorem C12_flow_pduheader_unpack : forall mf fuel data, run (W mf) fuel k_flow_pduheader_unpack [VO (OCls CPDUHeader); VB data] = (let* h := pdu_header_unpack data in Ok (VO (OHeader h))).
 Proof. exact flow_pduheader_unpack. Qed.
 Print Assumptions C12_flow_pduheader_unpack.
-Theorem C12_flow_sectrailer_pack : forall mf fuel s, run (W mf) fuel k_flow_sectrailer_pack [VO (OSecTrailer s)] = chk (in_range 1 (st_type s) && in_range 1 (st_level s) && in_range 1 (st_pad_length s) && in_range 4 (st_context_id s)) (sec_trailer_pack s).
+Theorem C12_flow_sectrailer_pack : forall mf fuel s, run (W mf) fuel k_flow_sectrailer_pack [VO (OSecTrailer s)] = chk (sec_trailer_ranges s) (sec_trailer_pack s).
 Proof. exact flow_sectrailer_pack. Qed.
 Print Assumptions C12_flow_sectrailer_pack.
 Theorem C12_flow_sectrailer_unpack : forall mf fuel data, run (W mf) fuel k_flow_sectrailer_unpack [VO (OCls CSecTrailer); VB data] = (let* s := sec_trailer_unpack data in Ok (VO (OSecTrailer s))).
@@ -254,36 +258,66 @@ Print Assumptions C12_flow_sectrailer_unpack.
 Theorem C12_flow_fault_unpack : forall mf fuel data h st, run (W mf) fuel k_flow_fault_unpack [VO (OCls CFault); VB data; VO (OHeader h); vst st] = (let* m := fault_unpack data h st in Ok (VO (OFault m))).
 Proof. exact flow_fault_unpack. Qed.
 Print Assumptions C12_flow_fault_unpack.
-Theorem C12_flow_fault_pack : forall mf fuel m, run (W mf) fuel k_flow_fault_pack [VO (OFault m)] = chk (in_range 4 (f_alloc_hint m) && in_range 2 (f_context_id m) && in_range 1 (f_cancel_count m) && in_range 1 (f_flags m) && in_range 4 (f_status m)) (fault_pack m).
+Theorem C12_flow_fault_pack : forall mf fuel m, run (W mf) fuel k_flow_fault_pack [VO (OFault m)] = chk (fault_ranges m) (fault_pack m).
 Proof. exact flow_fault_pack. Qed.
 Print Assumptions C12_flow_fault_pack.
+Theorem C12_flow_wf_data_rep_ranges : forall d, wf_data_rep d = true -> data_rep_ranges d = true.
+Proof. exact wf_data_rep_ranges. Qed.
+Print Assumptions C12_flow_wf_data_rep_ranges.
+Theorem C12_flow_wf_pdu_header_ranges : forall h, wf_pdu_header h = true -> pdu_header_ranges h = true.
+Proof. exact wf_pdu_header_ranges. Qed.
+Print Assumptions C12_flow_wf_pdu_header_ranges.
+Theorem C12_flow_wf_sec_trailer_ranges : forall s, wf_sec_trailer s = true -> sec_trailer_ranges s = true.
+Proof. exact wf_sec_trailer_ranges. Qed.
+Print Assumptions C12_flow_wf_sec_trailer_ranges.
+Theorem C12_flow_wf_lengths_ranges : forall h total st, wf_lengths h total st = true -> opt_sec_trailer_ranges st = true.
+Proof. exact wf_lengths_ranges. Qed.
+Print Assumptions C12_flow_wf_lengths_ranges.
+Theorem C12_flow_wf_fault_ranges : forall m, wf_fault m = true -> fault_ranges m = true.
+Proof. exact wf_fault_ranges. Qed.
+Print Assumptions C12_flow_wf_fault_ranges.
+Theorem C12_flow_fault_pack_wf : forall mf fuel m, wf_fault m = true -> run (W mf) fuel k_flow_fault_pack [VO (OFault m)] = Ok (VB (fault_pack m)).
+Proof. exact flow_fault_pack_wf. Qed.
+Print Assumptions C12_flow_fault_pack_wf.
 (* Flow_rpc_request.v *)
 Theorem C12_flow_response_unpack : forall mf fuel data h st, run (W mf) fuel k_flow_response_unpack [VO (OCls CResponse); VB data; VO (OHeader h); vst st] = (let* m := response_unpack data h st in Ok (VO (OResponse m))).
 Proof. exact flow_response_unpack. Qed.
 Print Assumptions C12_flow_response_unpack.
-Theorem C12_flow_response_pack : forall mf fuel m, run (W mf) fuel k_flow_response_pack [VO (OResponse m)] = chk (in_range 4 (rs_alloc_hint m) && in_range 2 (rs_context_id m) && in_range 1 (rs_cancel_count m)) (response_pack m).
+Theorem C12_flow_response_pack : forall mf fuel m, run (W mf) fuel k_flow_response_pack [VO (OResponse m)] = chk (response_ranges m) (response_pack m).
 Proof. exact flow_response_pack. Qed.
 Print Assumptions C12_flow_response_pack.
 Theorem C12_flow_request_unpack : forall mf fuel data h st, run (W mf) fuel k_flow_request_unpack [VO (OCls CRequest); VB data; VO (OHeader h); vst st] = (let* m := request_unpack data h st in Ok (VO (ORequest m))).
 Proof. exact flow_request_unpack. Qed.
 Print Assumptions C12_flow_request_unpack.
-Theorem C12_flow_request_pack : forall mf fuel m, run (W mf) fuel k_flow_request_pack [VO (ORequest m)] = chk (in_range 4 (rq_alloc_hint m) && in_range 2 (rq_context_id m) && in_range 2 (rq_opnum m)) (request_pack m).
+Theorem C12_flow_request_pack : forall mf fuel m, run (W mf) fuel k_flow_request_pack [VO (ORequest m)] = chk (request_ranges m) (request_pack m).
 Proof. exact flow_request_pack. Qed.
 Print Assumptions C12_flow_request_pack.
+Theorem C12_flow_wf_request_ranges : forall m, wf_request m = true -> request_ranges m = true.
+Proof. exact wf_request_ranges. Qed.
+Print Assumptions C12_flow_wf_request_ranges.
+Theorem C12_flow_wf_response_ranges : forall m, wf_response m = true -> response_ranges m = true.
+Proof. exact wf_response_ranges. Qed.
+Print Assumptions C12_flow_wf_response_ranges.
+Theorem C12_flow_request_pack_wf : forall mf fuel m, wf_request m = true -> run (W mf) fuel k_flow_request_pack [VO (ORequest m)] = Ok (VB (request_pack m)).
+Proof. exact flow_request_pack_wf. Qed.
+Print Assumptions C12_flow_request_pack_wf.
+Theorem C12_flow_response_pack_wf : forall mf fuel m, wf_response m = true -> run (W mf) fuel k_flow_response_pack [VO (OResponse m)] = Ok (VB (response_pack m)).
+Proof. exact flow_response_pack_wf. Qed.
+Print Assumptions C12_flow_response_pack_wf.
 (* Flow_rpc_bind.v *)
-Theorem C12_flow_syntaxid_pack : forall mf fuel s, run (W mf) fuel k_flow_syntaxid_pack [VO (OSyntaxId s)] = chk (in_range 2 (sy_version s) && in_range 2 (sy_version_minor s)) (syntax_id_pack s).
+Theorem C12_flow_syntaxid_pack : forall mf fuel s, run (W mf) fuel k_flow_syntaxid_pack [VO (OSyntaxId s)] = chk (syntax_id_ranges s) (syntax_id_pack s).
 Proof. exact flow_syntaxid_pack. Qed.
 Print Assumptions C12_flow_syntaxid_pack.
 Theorem C12_flow_syntaxid_unpack : forall mf fuel data, run (W mf) fuel k_flow_syntaxid_unpack [VO (OCls CSyntaxId); VB data] = (let* s := syntax_id_unpack data in Ok (VO (OSyntaxId s))).
 Proof. exact flow_syntaxid_unpack. Qed.
 Print Assumptions C12_flow_syntaxid_unpack.
-Theorem C12_flow_contextresult_pack : forall mf fuel r, run (W mf) fuel k_flow_contextresult_pack [VO (OContextResult r)] = chk (in_range 2 (cr_result r) && in_range 2 (cr_reason r) && in_range 4 (cr_syntax_version r)) (context_result_pack r).
+Theorem C12_flow_contextresult_pack : forall mf fuel r, run (W mf) fuel k_flow_contextresult_pack [VO (OContextResult r)] = chk (context_result_ranges r) (context_result_pack r).
 Proof. exact flow_contextresult_pack. Qed.
 Print Assumptions C12_flow_contextresult_pack.
 Theorem C12_flow_contextresult_unpack : forall mf fuel data, run (W mf) fuel k_flow_contextresult_unpack [VO (OCls CContextResult); VB data] = (let* r := context_result_unpack data in Ok (VO (OContextResult r))).
 Proof. exact flow_contextresult_unpack. Qed.
 Print Assumptions C12_flow_contextresult_unpack.
-Theorem C12_flow_contextelement_pack : forall mf fuel c, run (W mf) fuel k_flow_contextelement_pack [VO (OContextElement c)] = chk (in_range 2 (ce_context_id c) && in_range 2 (len (ce_transfer_syntaxes c))) (context_element_pack c).
+Theorem C12_flow_contextelement_pack : forall mf fuel c, run (W mf) fuel k_flow_contextelement_pack [VO (OContextElement c)] = chk (context_element_ranges c) (context_element_pack c).
 Proof. exact flow_contextelement_pack. Qed.
 Print Assumptions C12_flow_contextelement_pack.
 Theorem C12_flow_contextelement_unpack : forall mf mfuel fuel data, context_element_unpack mfuel data <> Raise OutOfFuel -> run (W mf) fuel k_flow_contextelement_unpack [VO (OCls CContextElement); VB data] = lift_fst OContextElement (context_element_unpack mfuel data).
@@ -316,13 +350,13 @@ Print Assumptions C12_flow_altercontextresponse_unpack.
 Theorem C12_flow_altercontextresponse_unpack_body : forall mf mfuel fuel data h st, bind_ack_unpack mfuel data h st <> Raise OutOfFuel -> run (W mf) fuel k_flow_bindack_unpack [VO (OCls CAlterContextResponse); VB data; VO (OHeader h); vst st] = lift_fst OBindAck (bind_ack_unpack mfuel data h st).
 Proof. exact flow_altercontextresponse_unpack_body. Qed.
 Print Assumptions C12_flow_altercontextresponse_unpack_body.
-Theorem C12_flow_bind_pack : forall mf fuel m, run (W mf) fuel k_flow_bind_pack [VO (OBind m)] = chk (in_range 2 (b_max_xmit_frag m) && in_range 2 (b_max_recv_frag m) && in_range 4 (b_assoc_group m) && in_range 4 (len (b_contexts m))) (bind_pack m).
+Theorem C12_flow_bind_pack : forall mf fuel m, run (W mf) fuel k_flow_bind_pack [VO (OBind m)] = chk (bind_ranges m) (bind_pack m).
 Proof. exact flow_bind_pack. Qed.
 Print Assumptions C12_flow_bind_pack.
-Theorem C12_flow_bindack_pack : forall mf fuel m, run (W mf) fuel k_flow_bindack_pack [VO (OBindAck m)] = (let* bsa := sec_addr_bytes (ba_sec_addr m) in chk (in_range 2 (ba_max_xmit_frag m) && in_range 2 (ba_max_recv_frag m) && in_range 4 (ba_assoc_group m) && in_range 2 (len bsa) && in_range 4 (len (ba_results m))) (pdu_header_pack (ba_header m) ++ bind_ack_body_of m bsa ++ opt_sec_trailer_pack (ba_sec_trailer m))).
+Theorem C12_flow_bindack_pack : forall mf fuel m, run (W mf) fuel k_flow_bindack_pack [VO (OBindAck m)] = (let* bsa := sec_addr_bytes (ba_sec_addr m) in chk (bind_ack_ranges m bsa) (pdu_header_pack (ba_header m) ++ bind_ack_body_of m bsa ++ opt_sec_trailer_pack (ba_sec_trailer m))).
 Proof. exact flow_bindack_pack. Qed.
 Print Assumptions C12_flow_bindack_pack.
-Theorem C12_flow_bindnak_pack : forall mf fuel m, run (W mf) fuel k_flow_bindnak_pack [VO (OBindNak m)] = chk (forallb (fun v => in_range 1 (fst v) && in_range 1 (snd v)) (bn_versions m) && in_range 1 (len (bn_versions m)) && in_range 2 (bn_reject_reason m)) (bind_nak_pack m).
+Theorem C12_flow_bindnak_pack : forall mf fuel m, run (W mf) fuel k_flow_bindnak_pack [VO (OBindNak m)] = chk (bind_nak_ranges m) (bind_nak_pack m).
 Proof. exact flow_bindnak_pack. Qed.
 Print Assumptions C12_flow_bindnak_pack.
 Theorem C12_flow_btfn : forall mf fuel flags, run (W mf) fuel k_flow_btfn [VI flags] = if in_range 1 flags then Ok (VO (OSyntaxId (bind_time_feature_negotiation flags))) else Raise ValueError.
@@ -340,69 +374,99 @@ Print Assumptions C12_flow_bindack_unpack_total.
 Theorem C12_flow_bindnak_unpack_total : forall mf mfuel fuel data h st, len data < Z.of_nat mfuel -> run (W mf) fuel k_flow_bindnak_unpack [VO (OCls CBindNak); VB data; VO (OHeader h); vst st] = lift_fst OBindNak (bind_nak_unpack mfuel data h st).
 Proof. exact flow_bindnak_unpack_total. Qed.
 Print Assumptions C12_flow_bindnak_unpack_total.
+Theorem C12_flow_wf_syntax_id_ranges : forall s, wf_syntax_id s = true -> syntax_id_ranges s = true.
+Proof. exact wf_syntax_id_ranges. Qed.
+Print Assumptions C12_flow_wf_syntax_id_ranges.
+Theorem C12_flow_wf_context_element_ranges : forall c, wf_context_element c = true -> context_element_ranges c = true.
+Proof. exact wf_context_element_ranges. Qed.
+Print Assumptions C12_flow_wf_context_element_ranges.
+Theorem C12_flow_wf_context_result_ranges : forall r, wf_context_result r = true -> context_result_ranges r = true.
+Proof. exact wf_context_result_ranges. Qed.
+Print Assumptions C12_flow_wf_context_result_ranges.
+Theorem C12_flow_wf_bind_ranges : forall pt m, wf_bind_as pt m = true -> bind_ranges m = true.
+Proof. exact wf_bind_ranges. Qed.
+Print Assumptions C12_flow_wf_bind_ranges.
+Theorem C12_flow_wf_bind_ack_ranges : forall pt m packed bsa, wf_bind_ack_as pt m packed bsa = true -> bind_ack_ranges m bsa = true.
+Proof. exact wf_bind_ack_ranges. Qed.
+Print Assumptions C12_flow_wf_bind_ack_ranges.
+Theorem C12_flow_bind_pack_wf : forall mf fuel pt m, wf_bind_as pt m = true -> run (W mf) fuel k_flow_bind_pack [VO (OBind m)] = Ok (VB (bind_pack m)).
+Proof. exact flow_bind_pack_wf. Qed.
+Print Assumptions C12_flow_bind_pack_wf.
+Theorem C12_flow_bindack_pack_wf : forall mf fuel pt m packed bsa, sec_addr_bytes (ba_sec_addr m) = Ok bsa -> wf_bind_ack_as pt m packed bsa = true -> run (W mf) fuel k_flow_bindack_pack [VO (OBindAck m)] = (let* p := bind_ack_pack m in Ok (VB p)).
+Proof. exact flow_bindack_pack_wf. Qed.
+Print Assumptions C12_flow_bindack_pack_wf.
 (* Flow_rpc_vt.v *)
-Theorem C12_flow_command_pack : forall mf fuel c, run (W mf) fuel k_flow_command_pack [VO (OCommand c)] = chk (in_range 2 (Z.lor (command_type c) (cmd_flags c)) && in_range 2 (len (cmd_value c))) (command_generic_pack (command_type c) (cmd_flags c) (cmd_value c)).
+Theorem C12_flow_command_pack : forall mf fuel c, run (W mf) fuel k_flow_command_pack [VO (OCommand c)] = chk (command_generic_ranges (command_type c) (cmd_flags c) (cmd_value c)) (command_generic_pack (command_type c) (cmd_flags c) (cmd_value c)).
 Proof. exact flow_command_pack. Qed.
 Print Assumptions C12_flow_command_pack.
-Theorem C12_flow_command_pack_generic : forall mf fuel c, cmd_kind_of c = CK_Generic -> run (W mf) fuel k_flow_command_pack [VO (OCommand c)] = chk (in_range 2 (Z.lor (cmd_command c) (cmd_flags c)) && in_range 2 (len (cmd_value c))) (command_pack c).
+Theorem C12_flow_command_pack_generic : forall mf fuel c, cmd_kind_of c = CK_Generic -> run (W mf) fuel k_flow_command_pack [VO (OCommand c)] = chk (command_ranges c) (command_pack c).
 Proof. exact flow_command_pack_generic. Qed.
 Print Assumptions C12_flow_command_pack_generic.
 Theorem C12_flow_command_unpack : forall mf fuel data, run (W mf) fuel k_flow_command_unpack [VO (OCls CCommand); VB data] = (let* c := command_unpack data in Ok (VO (OCommand c))).
 Proof. exact flow_command_unpack. Qed.
 Print Assumptions C12_flow_command_unpack.
-Theorem C12_flow_cmdbitmask_pack : forall mf fuel c bits, cmd_kind_of c = CK_Bitmask bits -> run (W mf) fuel k_flow_cmdbitmask_pack [VO (OCommand c)] = chk (in_range 4 bits) (command_pack c).
+Theorem C12_flow_cmdbitmask_pack : forall mf fuel c bits, cmd_kind_of c = CK_Bitmask bits -> run (W mf) fuel k_flow_cmdbitmask_pack [VO (OCommand c)] = chk (command_ranges c) (command_pack c).
 Proof. exact flow_cmdbitmask_pack. Qed.
 Print Assumptions C12_flow_cmdbitmask_pack.
 Theorem C12_flow_cmdbitmask_unpack : forall mf fuel flags value, run (W mf) fuel k_flow_cmdbitmask_unpack [VO (OCls CCommandBitmask); VI flags; VB value] = Ok (VO (OCommand (known_command (CK_Bitmask (le_val value)) flags))).
 Proof. exact flow_cmdbitmask_unpack. Qed.
 Print Assumptions C12_flow_cmdbitmask_unpack.
-Theorem C12_flow_cmdpcontext_pack : forall mf fuel c i t, cmd_kind_of c = CK_PContext i t -> run (W mf) fuel k_flow_cmdpcontext_pack [VO (OCommand c)] = Ok (VB (command_pack c)).
+Theorem C12_flow_cmdpcontext_pack : forall mf fuel c i t, cmd_kind_of c = CK_PContext i t -> run (W mf) fuel k_flow_cmdpcontext_pack [VO (OCommand c)] = chk (command_ranges c) (command_pack c).
 Proof. exact flow_cmdpcontext_pack. Qed.
 Print Assumptions C12_flow_cmdpcontext_pack.
 Theorem C12_flow_cmdpcontext_unpack : forall mf fuel flags value, run (W mf) fuel k_flow_cmdpcontext_unpack [VO (OCls CCommandPContext); VI flags; VB value] = (let* i := syntax_id_unpack value in let* t := syntax_id_unpack (slice (Some 20) None value) in Ok (VO (OCommand (known_command (CK_PContext i t) flags)))).
 Proof. exact flow_cmdpcontext_unpack. Qed.
 Print Assumptions C12_flow_cmdpcontext_unpack.
-Theorem C12_flow_cmdheader2_pack : forall mf fuel c pt dr call ctx op, cmd_kind_of c = CK_Header2 pt dr call ctx op -> run (W mf) fuel k_flow_cmdheader2_pack [VO (OCommand c)] = chk (in_range 1 pt && in_range 4 call && in_range 2 ctx && in_range 2 op) (command_pack c).
+Theorem C12_flow_cmdheader2_pack : forall mf fuel c pt dr call ctx op, cmd_kind_of c = CK_Header2 pt dr call ctx op -> run (W mf) fuel k_flow_cmdheader2_pack [VO (OCommand c)] = chk (command_ranges c) (command_pack c).
 Proof. exact flow_cmdheader2_pack. Qed.
 Print Assumptions C12_flow_cmdheader2_pack.
 Theorem C12_flow_cmdheader2_unpack : forall mf fuel flags value, run (W mf) fuel k_flow_cmdheader2_unpack [VO (OCls CCommandHeader2); VI flags; VB value] = (let* b0 := index value 0 in let* packet_type := enum_lookup c_PacketType_values b0 in let* dr := data_rep_unpack (slice (Some 4) (Some 8) value) in Ok (VO (OCommand (known_command (CK_Header2 packet_type dr (le_val (slice (Some 8) (Some 12) value)) (le_val (slice (Some 12) (Some 14) value)) (le_val (slice (Some 14) (Some 16) value))) flags)))).
 Proof. exact flow_cmdheader2_unpack. Qed.
 Print Assumptions C12_flow_cmdheader2_unpack.
-Theorem C12_flow_vt_pack : forall mf fuel cs, run (W mf) fuel k_flow_vt_pack [VO (OVT cs)] = Ok (VB (verification_trailer_pack cs)).
+Theorem C12_flow_vt_pack : forall mf fuel cs, run (W mf) fuel k_flow_vt_pack [VO (OVT cs)] = chk (forallb command_ranges cs) (verification_trailer_pack cs).
 Proof. exact flow_vt_pack. Qed.
 Print Assumptions C12_flow_vt_pack.
 Theorem C12_flow_vt_unpack : forall mf fuel data, run (W mf) fuel k_flow_vt_unpack [VO (OCls CVerificationTrailer); VB data] = (let* (cs, _) := verification_trailer_unpack fuel data in Ok (VO (OVT cs))).
 Proof. exact flow_vt_unpack. Qed.
 Print Assumptions C12_flow_vt_unpack.
+Theorem C12_flow_wf_command_ranges : forall c, wf_command c = true -> command_ranges c = true.
+Proof. exact wf_command_ranges. Qed.
+Print Assumptions C12_flow_wf_command_ranges.
+Theorem C12_flow_wf_commands_ranges : forall cs, wf_commands cs = true -> forallb command_ranges cs = true.
+Proof. exact wf_commands_ranges. Qed.
+Print Assumptions C12_flow_wf_commands_ranges.
+Theorem C12_flow_vt_pack_wf : forall mf fuel cs, wf_commands cs = true -> run (W mf) fuel k_flow_vt_pack [VO (OVT cs)] = Ok (VB (verification_trailer_pack cs)).
+Proof. exact flow_vt_pack_wf. Qed.
+Print Assumptions C12_flow_vt_pack_wf.
 (* Flow_rpc_epm.v *)
-Theorem C12_flow_floor_pack : forall mf fuel f, run (W mf) fuel k_flow_floor_pack [VO (OFloor f)] = chk (in_range 2 (len (fl_lhs f) + 1) && in_range 1 (floor_protocol f) && in_range 2 (len (fl_rhs f))) (floor_generic_pack (floor_protocol f) (fl_lhs f) (fl_rhs f)).
+Theorem C12_flow_floor_pack : forall mf fuel f, run (W mf) fuel k_flow_floor_pack [VO (OFloor f)] = chk (floor_generic_ranges (floor_protocol f) (fl_lhs f) (fl_rhs f)) (floor_generic_pack (floor_protocol f) (fl_lhs f) (fl_rhs f)).
 Proof. exact flow_floor_pack. Qed.
 Print Assumptions C12_flow_floor_pack.
-Theorem C12_flow_floor_pack_generic : forall mf fuel f, fl_kind f = FK_Generic -> run (W mf) fuel k_flow_floor_pack [VO (OFloor f)] = chk (in_range 2 (len (fl_lhs f) + 1) && in_range 1 (fl_protocol f) && in_range 2 (len (fl_rhs f))) (floor_pack f).
+Theorem C12_flow_floor_pack_generic : forall mf fuel f, fl_kind f = FK_Generic -> run (W mf) fuel k_flow_floor_pack [VO (OFloor f)] = chk (floor_ranges f) (floor_pack f).
 Proof. exact flow_floor_pack_generic. Qed.
 Print Assumptions C12_flow_floor_pack_generic.
 Theorem C12_flow_floor_unpack : forall mf fuel data, run (W mf) fuel k_flow_floor_unpack [VO (OCls CFloor); VB data] = (let* f := floor_unpack data in Ok (VO (OFloor f))).
 Proof. exact flow_floor_unpack. Qed.
 Print Assumptions C12_flow_floor_unpack.
-Theorem C12_flow_tcpfloor_pack : forall mf fuel f port, fl_kind f = FK_TCP port -> run (W mf) fuel k_flow_tcpfloor_pack [VO (OFloor f)] = chk (in_range 2 port) (floor_pack f).
+Theorem C12_flow_tcpfloor_pack : forall mf fuel f port, fl_kind f = FK_TCP port -> run (W mf) fuel k_flow_tcpfloor_pack [VO (OFloor f)] = chk (floor_ranges f) (floor_pack f).
 Proof. exact flow_tcpfloor_pack. Qed.
 Print Assumptions C12_flow_tcpfloor_pack.
 Theorem C12_flow_tcpfloor_unpack : forall mf fuel lhs rhs, run (W mf) fuel k_flow_tcpfloor_unpack [VO (OCls CTCPFloor); VB lhs; VB rhs] = Ok (VO (OFloor (known_floor (FK_TCP (be_val rhs))))).
 Proof. exact flow_tcpfloor_unpack. Qed.
 Print Assumptions C12_flow_tcpfloor_unpack.
-Theorem C12_flow_ipfloor_pack : forall mf fuel f addr, fl_kind f = FK_IP addr -> run (W mf) fuel k_flow_ipfloor_pack [VO (OFloor f)] = chk (in_range 4 addr) (floor_pack f).
+Theorem C12_flow_ipfloor_pack : forall mf fuel f addr, fl_kind f = FK_IP addr -> run (W mf) fuel k_flow_ipfloor_pack [VO (OFloor f)] = chk (floor_ranges f) (floor_pack f).
 Proof. exact flow_ipfloor_pack. Qed.
 Print Assumptions C12_flow_ipfloor_pack.
 Theorem C12_flow_ipfloor_unpack : forall mf fuel lhs rhs, run (W mf) fuel k_flow_ipfloor_unpack [VO (OCls CIPFloor); VB lhs; VB rhs] = Ok (VO (OFloor (known_floor (FK_IP (be_val rhs))))).
 Proof. exact flow_ipfloor_unpack. Qed.
 Print Assumptions C12_flow_ipfloor_unpack.
-Theorem C12_flow_rpccofloor_pack : forall mf fuel f vm, fl_kind f = FK_RPC_CO vm -> run (W mf) fuel k_flow_rpccofloor_pack [VO (OFloor f)] = chk (in_range 2 vm) (floor_pack f).
+Theorem C12_flow_rpccofloor_pack : forall mf fuel f vm, fl_kind f = FK_RPC_CO vm -> run (W mf) fuel k_flow_rpccofloor_pack [VO (OFloor f)] = chk (floor_ranges f) (floor_pack f).
 Proof. exact flow_rpccofloor_pack. Qed.
 Print Assumptions C12_flow_rpccofloor_pack.
 Theorem C12_flow_rpccofloor_unpack : forall mf fuel lhs rhs, run (W mf) fuel k_flow_rpccofloor_unpack [VO (OCls CRPCConnectionOrientedFloor); VB lhs; VB rhs] = Ok (VO (OFloor (known_floor (FK_RPC_CO (le_val rhs))))).
 Proof. exact flow_rpccofloor_unpack. Qed.
 Print Assumptions C12_flow_rpccofloor_unpack.
-Theorem C12_flow_uuidfloor_pack : forall mf fuel f u v vm, fl_kind f = FK_UUID u v vm -> run (W mf) fuel k_flow_uuidfloor_pack [VO (OFloor f)] = chk (in_range 2 v && in_range 2 vm) (floor_pack f).
+Theorem C12_flow_uuidfloor_pack : forall mf fuel f u v vm, fl_kind f = FK_UUID u v vm -> run (W mf) fuel k_flow_uuidfloor_pack [VO (OFloor f)] = chk (floor_ranges f) (floor_pack f).
 Proof. exact flow_uuidfloor_pack. Qed.
 Print Assumptions C12_flow_uuidfloor_pack.
 Theorem C12_flow_uuidfloor_unpack : forall mf fuel lhs rhs, run (W mf) fuel k_flow_uuidfloor_unpack [VO (OCls CUUIDFloor); VB lhs; VB rhs] = (let* u := uuid_of_bytes_le (slice None (Some 16) lhs) in Ok (VO (OFloor (known_floor (FK_UUID u (le_val (slice (Some 16) (Some 18) lhs)) (le_val rhs)))))).
@@ -411,9 +475,15 @@ Print Assumptions C12_flow_uuidfloor_unpack.
 Theorem C12_flow_eptmapresult_unpack : forall mf mfuel fuel data, ept_map_result_unpack mfuel data <> Raise OutOfFuel -> run (W mf) fuel k_flow_eptmapresult_unpack [VO (OCls CEptMapResult); VB data] = lift_fst OEptMapResult (ept_map_result_unpack mfuel data).
 Proof. exact flow_eptmapresult_unpack. Qed.
 Print Assumptions C12_flow_eptmapresult_unpack.
-Theorem C12_flow_eptmapresult_pack : forall mf fuel m, eptres_ranges m = true -> run (W mf) fuel k_flow_eptmapresult_pack [VO (OEptMapResult m)] = Ok (VB (ept_map_result_pack m)).
+Theorem C12_flow_eptmapresult_pack : forall mf fuel m, ept_map_result_ranges m = true -> run (W mf) fuel k_flow_eptmapresult_pack [VO (OEptMapResult m)] = Ok (VB (ept_map_result_pack m)).
 Proof. exact flow_eptmapresult_pack. Qed.
 Print Assumptions C12_flow_eptmapresult_pack.
+Theorem C12_flow_wf_floor_ranges : forall f, wf_floor f = true -> floor_ranges f = true.
+Proof. exact wf_floor_ranges. Qed.
+Print Assumptions C12_flow_wf_floor_ranges.
+Theorem C12_flow_wf_eptres_ranges : forall m, wf_ept_map_result m = true -> ept_map_result_ranges m = true.
+Proof. exact wf_eptres_ranges. Qed.
+Print Assumptions C12_flow_wf_eptres_ranges.
 Theorem C12_flow_eptmapresult_unpack_total : forall mf mfuel fuel data, len data < Z.of_nat mfuel -> run (W mf) fuel k_flow_eptmapresult_unpack [VO (OCls CEptMapResult); VB data] = lift_fst OEptMapResult (ept_map_result_unpack mfuel data).
 Proof. exact flow_eptmapresult_unpack_total. Qed.
 Print Assumptions C12_flow_eptmapresult_unpack_total.
@@ -424,12 +494,12 @@ Print Assumptions C12_flow_build_tcpip_tower.
 Theorem C12_flow_eptmap_unpack : forall mf mfuel fuel data, ept_map_unpack mfuel data <> Raise OutOfFuel -> run (W mf) fuel k_flow_eptmap_unpack [VO (OCls CEptMap); VB data] = lift_fst OEptMap (ept_map_unpack mfuel data).
 Proof. exact flow_eptmap_unpack. Qed.
 Print Assumptions C12_flow_eptmap_unpack.
-Theorem C12_flow_eptmap_pack : forall mf fuel m, run (W mf) fuel k_flow_eptmap_pack [VO (OEptMap m)] = chk (in_range 2 (len (em_tower m)) && handle_ok (em_entry_handle m) && in_range 8 (len (tower_bytes (em_tower m))) && in_range 4 (len (tower_bytes (em_tower m))) && in_range 4 (em_max_towers m)) (ept_map_pack m).
+Theorem C12_flow_eptmap_pack : forall mf fuel m, run (W mf) fuel k_flow_eptmap_pack [VO (OEptMap m)] = chk (ept_map_ranges m) (ept_map_pack m).
 Proof. exact flow_eptmap_pack. Qed.
 Print Assumptions C12_flow_eptmap_pack.
 Theorem C12_flow_eptmap_unpack_total : forall mf mfuel fuel data, len data < Z.of_nat mfuel -> run (W mf) fuel k_flow_eptmap_unpack [VO (OCls CEptMap); VB data] = lift_fst OEptMap (ept_map_unpack mfuel data).
 Proof. exact flow_eptmap_unpack_total. Qed.
 Print Assumptions C12_flow_eptmap_unpack_total.
 (* the range hypothesis of C12_flow_eptmapresult_pack is met by the two-tower example above *)
-Example C12_flow_example_eptres_ranges : exists m, length (er_towers m) = 2%nat /\ eptres_ranges m = true.
+Example C12_flow_example_eptres_ranges : exists m, length (er_towers m) = 2%nat /\ ept_map_result_ranges m = true.
 Proof. exact (match example_ept_map_result with ex_intro _ m (conj H1 (conj H2 _)) => ex_intro _ m (conj H1 (wf_eptres_ranges m H2)) end). Qed.
